@@ -596,7 +596,9 @@ def crafted_tree():
     def folder(name, files, subs=()):
         f = Node("folder", name, next(ids))
         for fn in files:
-            f.children.append(Node("file", fn, next(ids), createdDateTime="2024-01-15T10:30:00Z", lastModifiedDateTime="2024-01-15T10:30:00.5Z"))
+            early, late = "2024-01-15T10:29:59.5Z", "2024-01-15T10:30:00.5Z"
+            flip = len(fn) % 2 == 0          # some files created before / modified after the bound, some the other way round
+            f.children.append(Node("file", fn, next(ids), createdDateTime=late if flip else early, lastModifiedDateTime=early if flip else late))
         f.children.extend(subs)
         return f
     root = Node("folder", "", "ROOT")
@@ -617,9 +619,11 @@ def check_crafted(targets=None, extra_filter=None):
     over disjoint requested folders return every file of every requested folder exactly once."""
     root = crafted_tree()
     for tg in ([targets] if targets else CRAFTED_TARGETS):
-        for page in (1, 3):
+        for page, exts in ((1, None), (3, [".PDF"])):
             for api in ("filtered", "modified_since", "created_since"):
                 fd = {"folder_paths": tg}
+                if exts:
+                    fd["extensions"] = exts
                 if api == "modified_since":
                     fd["modified_after"] = BASE
                 if api == "created_since":
@@ -631,16 +635,17 @@ def check_crafted(targets=None, extra_filter=None):
                     if api == "filtered":
                         got = [rec_of(m) for m in c.list_files_filtered(mk_filter(fd))]
                     elif api == "modified_since":
-                        got = [rec_of(m) for m in c.list_files_modified_since(BASE, folder_paths=tg)]
+                        got = [rec_of(m) for m in c.list_files_modified_since(BASE, folder_paths=tg, extensions=exts)]
                     else:
-                        got = [rec_of(m) for m in c.list_files_created_since(BASE, folder_paths=tg)]
+                        got = [rec_of(m) for m in c.list_files_created_since(BASE, folder_paths=tg, extensions=exts)]
                 except Exception as e:  # noqa
                     got = f"{type(e).__name__}: {e}"
                 if not isinstance(got, list) or sorted(got) != want:
                     missing = [r for r in want if not isinstance(got, list) or r not in got]
                     return {"target": "sharepoint2text/sharepoint_io/client.py::SharePointRestClient.list_files_" +
                                       {"filtered": "filtered", "modified_since": "modified_since", "created_since": "created_since"}[api],
-                            "inputs": {"library": "crafted_tree()", "folder_paths": tg, "page_size": page, "api": api},
+                            "inputs": {"library": "crafted_tree()", "folder_paths": tg, "page_size": page, "api": api, "since": BASE.isoformat(),
+                                       "extensions": exts},
                             "expected": f"every file of every requested folder exactly once ({len(want)} records)",
                             "observed": f"{got if not isinstance(got, list) else len(got)} records; missing={missing[:4]}"}
     return None
